@@ -370,6 +370,30 @@ def run(ctx):
             else:
                 if pr.returncode != 0 or any(not os.path.exists(q) for q in outs) or any("OLD CONTENT" in open(q).read() for q in outs):
                     ctx.violation("accepted document: exit %d, outputs %r" % (pr.returncode, sorted(os.listdir(d))), dict(rep, impl_output=pr.stderr[-800:]))
+    # several sources in one invocation: an error in ANY of them makes the command exit non-zero, wherever in the list the faulty source stands, and that source's
+    # outputs are not created or modified
+    clean = [docs[i] for i in range(len(docs)) if isinstance(impl[i], dict) and impl[i].get("ui") is not None and not impl[i]["diags"]][:3]
+    bad_docs = [fdocs[i] for i in sorted(firsts.values())][:4 if ctx.tier == "thorough" else 2]
+    if clean:
+        for bi, bad_src in enumerate(bad_docs):
+            for oi, order in enumerate((["Bad", "Good"], ["Good", "Bad"], ["Bad", "Good", "Good2"], ["Good", "Bad", "Good2"])):
+                d = os.path.join(work, "m%d_%d" % (bi, oi))
+                os.makedirs(d)
+                texts = {"Bad": bad_src, "Good": clean[0], "Good2": clean[-1]}
+                for nme in set(order):
+                    open(os.path.join(d, nme + ".qml"), "w").write(texts[nme])
+                for q in ("bad.ui", "uisupport_bad.h"):
+                    open(os.path.join(d, q), "w").write("OLD CONTENT\n")
+                pr = subprocess.run([cli, "generate-ui", "--foreign-types", os.path.join(C.REPO, "contrib", "metatypes")] + [os.path.join(d, nme + ".qml") for nme in order],
+                                    capture_output=True, text=True, timeout=120)
+                ncli += 1
+                ctx.count(("cli-multi", bi, oi), True)
+                rep = {"qml": bad_src, "cli_args": ["generate-ui", "--foreign-types", "contrib/metatypes"] + [nme + ".qml" for nme in order], "other_sources": "accepted documents"}
+                if pr.returncode == 0:
+                    ctx.violation("the command exits 0 although the source %s of [%s] has an error" % ("Bad.qml", ", ".join(order)), dict(rep, impl_output=pr.stderr[-800:],
+                                  theorem_or_correspondence="errors make the command fail / CLI"))
+                elif any(open(os.path.join(d, q)).read() != "OLD CONTENT\n" for q in ("bad.ui", "uisupport_bad.h")):
+                    ctx.violation("outputs of the faulty source modified (sources [%s])" % ", ".join(order), dict(rep, impl_output=pr.stderr[-800:]))
     shutil.rmtree(work, ignore_errors=True)
     ctx.coverage["cli_runs"] = ncli
     ctx.sample({"qml": docs[0]})
